@@ -65,10 +65,13 @@ theorem step_in_prio {div : DivFn} {s : St} {a : Act} {phase p : Nat} {rest : Li
   cases a <;> simp_all [step]
 
 theorem step_top {div : DivFn} {s s' : St} {c : TopChoice} (h : step div s (.top c) = some s') :
-    s.pc = .top ∧ stepTop div s c = some s' := by
+    s.pc = .top ∧ stepTop div s c = some s' ∧ s.cfg.v1 = true := by
   simp only [step] at h
   split at h <;> try (cases h; done)
-  · rename_i hpc; exact ⟨hpc, h⟩
+  · rename_i hpc
+    split at h
+    · rename_i hv; exact ⟨hpc, h, hv⟩
+    · cases h
   · rename_i ph p rest hpc
     simp only [stepPoll] at h
     split at h
